@@ -202,7 +202,7 @@ def gen_sl_answers(rng, pal, n_items=None, alt_lists=None, nested=False, sub_del
             if rng.random() < 0.6:
                 d['grade_decimal'] = rng.choice(pal)
             if rng.random() < 0.6:
-                d['msg'] = rng.choice(MSGS)
+                d['msg'] = rng.choice(['', 'ANSWER-LEVEL', 'ANSWER-LEVEL two', 'ANS\nLEVEL'])
             outs.append(d)
     return tuple(outs) if (k > 1 or rng.random() < 0.5) else outs[0]
 
